@@ -2,6 +2,8 @@ import Dcg.Driver.Proto
 import Dcg.Model.Types
 import Dcg.Model.HintExpr
 import Dcg.Sem.Typing
+import Dcg.Model.HintRegion
+import Dcg.Proofs.Rename
 /-!
 Line protocol for Model.Types / Model.HintExpr / Sem.Typing.
 
@@ -111,6 +113,22 @@ def handlers : List (String × Handler) := [
         "ok " ++ encodeStr (Dcg.Sem.Typing.print r.1) ++ " " ++ b01 r.2 ++ " " ++
           encodeStr (Dcg.Sem.Typing.denote r.1).show ++ " " ++ b01 (Dcg.Model.HintExpr.wfTree t)
       | _, _ => "err args"
+    | _ => "err args")
+  ,
+  -- the decidable hypotheses of the C13 theorems on one tree (as the constructors leave it):
+  -- wfTree, freeTree, opRegion for the four container spellings, why outside (Any member, optional member
+  -- of a container-union, container-union of Nones; typing container names), rootOK typing/operator
+  ("types.region", fun
+    | [t] => match dt? t with
+      | some t =>
+        let t := t.init
+        "ok " ++ b01 (Dcg.Model.HintExpr.wfTree t) ++ " " ++ b01 (Dcg.Proofs.Types.freeTree t) ++ " " ++
+          String.join (Dcg.Model.HintExpr.containerSpellings.map (fun o => b01 (Dcg.Model.HintExpr.opRegion o t))) ++ " " ++
+          (let w := Dcg.Model.HintExpr.whyOutside {} t; b01 w.1 ++ b01 w.2.1 ++ b01 w.2.2) ++ " " ++
+          -- none_once per spelling: rootOK of the structural rendering, typing then operator
+          b01 (Dcg.Model.HintExpr.rootOK (Dcg.Model.HintExpr.hintE {} t).1) ++
+          b01 (Dcg.Model.HintExpr.rootOK (Dcg.Model.HintExpr.hintE { unionOp := true } t).1)
+      | none => "err args"
     | _ => "err args")
 ]
 end Dcg.Driver.Types
